@@ -512,6 +512,15 @@ pub mod verif {
     pub fn generation() -> usize {
         LocalNode::with(|l| l.helping.verif_generation())
     }
+
+    /// The node the calling thread owns right now, if any (does not claim one).
+    #[cfg(not(feature = "experimental-thread-local"))]
+    pub fn current_node() -> Option<usize> {
+        THREAD_HEAD
+            .try_with(|head| head.node.get().map(|n| n as *const Node as usize))
+            .ok()
+            .flatten()
+    }
 }
 
 #[cfg(test)]
